@@ -34,7 +34,7 @@ pub fn legs(prop: &str, tier: Tier) -> Vec<Leg> {
             } else if n {
                 vec![]
             } else {
-                vec![leg("chunk", "chunk", if q { 400_000 } else { 20_000_000 }, &["final", "chunk.0", "chunk.=fill", "chunk.fill+1", "chunk.fill-1", "pending.B", "pending.B-1", "pending.0"])]
+                vec![leg("chunk", "chunk", if q { 1_500_000 } else { 25_000_000 }, &["final", "chunk.0", "chunk.=fill", "chunk.fill+1", "chunk.fill-1", "pending.B", "pending.B-1", "pending.0"])]
             }
         }
         "C02" => {
@@ -42,8 +42,8 @@ pub fn legs(prop: &str, tier: Tier) -> Vec<Leg> {
                 vec![]
             } else {
                 vec![
-                    leg("box", "box", if q { 60_000 } else { 2_500_000 }, &["deliver.identical", "deliver.corrupted.rejected", "flip.tag", "flip.body", "flip.nonce", "flip.epk", "flip.key", "truncate", "extend"]),
-                    leg("stream", "stream", if q { 30_000 } else { 1_500_000 }, &["deliver.next.accepted", "deliver.corrupted.rejected", "flip.header", "flip.key", "ad.flip", "flip.body", "flip.mac", "flip.tagbyte", "truncate", "extend"]),
+                    leg("box", "box", if q { 300_000 } else { 6_000_000 }, &["deliver.identical", "deliver.corrupted.rejected", "flip.tag", "flip.body", "flip.nonce", "flip.epk", "flip.key", "truncate", "extend"]),
+                    leg("stream", "stream", if q { 300_000 } else { 4_000_000 }, &["deliver.next.accepted", "deliver.corrupted.rejected", "flip.header", "flip.key", "ad.flip", "flip.body", "flip.mac", "flip.tagbyte", "truncate", "extend"]),
                 ]
             }
         }
@@ -54,7 +54,7 @@ pub fn legs(prop: &str, tier: Tier) -> Vec<Leg> {
                 vec![leg(
                     "stream",
                     "stream",
-                    if q { 60_000 } else { 5_000_000 },
+                    if q { 1_000_000 } else { 20_000_000 },
                     &["deliver.next.accepted", "drain.all_accepted", "tx.counter_wrap", "rx.counter_wrap_rekey", "tx.explicit_rekey", "rx.explicit_rekey", "tx.rekey_tag", "tx.any_tag_byte", "replay", "skip", "foreign", "ad.flip", "ad.truncate", "ad.extend", "ad.presence", "flip.body", "flip.mac", "flip.tagbyte"],
                 )]
             }
@@ -64,28 +64,28 @@ pub fn legs(prop: &str, tier: Tier) -> Vec<Leg> {
                 vec![]
             } else {
                 vec![
-                    leg("box", "box", if q { 60_000 } else { 2_500_000 }, &["c17.observed_reject", "flip.tag", "flip.body", "truncate", "extend"]),
-                    leg("stream", "stream", if q { 30_000 } else { 1_500_000 }, &["c17.observed_reject", "flip.body", "flip.mac", "flip.tagbyte", "ad.flip", "truncate", "extend"]),
+                    leg("box", "box", if q { 300_000 } else { 6_000_000 }, &["c17.observed_reject", "flip.tag", "flip.body", "truncate", "extend"]),
+                    leg("stream", "stream", if q { 300_000 } else { 4_000_000 }, &["c17.observed_reject", "flip.body", "flip.mac", "flip.tagbyte", "ad.flip", "truncate", "extend"]),
                 ]
             }
         }
         "C04" => {
             if n {
-                vec![leg("box-n", "box", if q { 20_000 } else { 1_000_000 }, &["truncate", "garbage"]), leg("stream-n", "stream", if q { 10_000 } else { 500_000 }, &["truncate", "garbage"])]
+                vec![leg("box-n", "box", if q { 60_000 } else { 1_500_000 }, &["truncate", "garbage"]), leg("stream-n", "stream", if q { 60_000 } else { 1_500_000 }, &["truncate", "garbage"])]
             } else {
-                vec![leg("box", "box", if q { 60_000 } else { 3_000_000 }, &["truncate", "garbage", "extend", "splice"]), leg("stream", "stream", if q { 40_000 } else { 2_000_000 }, &["truncate", "garbage", "tx.any_tag_byte"]), leg("verifier", "verifier", if q { 30_000 } else { 1_500_000 }, &["truncate", "garbage", "flip", "seg.drop", "seg.dup", "seg.swap", "seg.empty", "char.replace", "num.replace", "verdict.accept", "verdict.reject"])]
+                vec![leg("box", "box", if q { 300_000 } else { 8_000_000 }, &["truncate", "garbage", "extend", "splice"]), leg("stream", "stream", if q { 300_000 } else { 8_000_000 }, &["truncate", "garbage", "tx.any_tag_byte"]), leg("verifier", "verifier", if q { 150_000 } else { 4_000_000 }, &["truncate", "garbage", "flip", "seg.drop", "seg.dup", "seg.swap", "seg.empty", "char.replace", "num.replace", "verdict.accept", "verdict.reject"])]
             }
         }
         "C14" => {
             if n && !simd {
-                vec![leg("mem", "mem", if q { 8_000 } else { 600_000 }, &["probe.rights", "probe.lock", "probe.guard", "probe.vmlck", "release.observed"])]
+                vec![leg("mem", "mem", if q { 40_000 } else { 1_000_000 }, &["probe.rights", "probe.lock", "probe.guard", "probe.vmlck", "release.observed"])]
             } else {
                 vec![]
             }
         }
         "C15" => {
             if n && !simd {
-                vec![leg("mem", "mem", if q { 8_000 } else { 600_000 }, &["release.observed", "release.path.drop", "release.path.grow", "release.path.shrink_then_drop", "release.path.locked_resize", "release.path.clone_drop"])]
+                vec![leg("mem", "mem", if q { 40_000 } else { 1_000_000 }, &["release.observed", "release.path.drop", "release.path.grow", "release.path.shrink_then_drop", "release.path.locked_resize", "release.path.clone_drop"])]
             } else {
                 vec![]
             }
@@ -93,16 +93,16 @@ pub fn legs(prop: &str, tier: Tier) -> Vec<Leg> {
         "C19" => {
             if n && !simd {
                 // runs = base walks x 48 fault plans (none, refuse_from 1..16, refuse_once 1..16, budget 0..14)
-                vec![leg("mem", "mem", 48 * if q { 300 } else { 20_000 }, &["plan.fired", "mlock_refused.refuse_from", "mlock_refused.refuse_once", "mlock_refused.budget"])]
+                vec![leg("mem", "mem", 48 * if q { 1_000 } else { 30_000 }, &["plan.fired", "mlock_refused.refuse_from", "mlock_refused.refuse_once", "mlock_refused.budget"])]
             } else {
                 vec![]
             }
         }
         "C11" => {
             if n {
-                vec![leg("rng-n", "rng", if q { 600 } else { 30_000 }, &["call.seam", "call.real", "history.byte_varies_evaluated"])]
+                vec![leg("rng-n", "rng", if q { 3_000 } else { 60_000 }, &["call.seam", "call.real", "history.byte_varies_evaluated"])]
             } else {
-                vec![leg("rng", "rng", if q { 3_000 } else { 150_000 }, &["call.seam", "call.real", "history.byte_varies_evaluated"])]
+                vec![leg("rng", "rng", if q { 20_000 } else { 400_000 }, &["call.seam", "call.real", "history.byte_varies_evaluated"])]
             }
         }
         _ => vec![],
